@@ -42,11 +42,13 @@ import (
 	"io"
 	"log"
 	"os"
+	"reflect"
 	"strconv"
 	"strings"
 	"sync"
 	"testing"
 	"time"
+	"unsafe"
 )
 
 // ---- capture writers: every Write call is kept separately
@@ -100,8 +102,29 @@ func vC18NewID(id int) bool { // true if new
 	return true
 }
 
+// the context key under which the library stores the connection id, discovered from a context the
+// library made (so renaming the unexported key variable or its type does not break the driver)
+var vC18KeyOnce sync.Once
+var vC18KeyVal interface{}
+
+func vC18Key() interface{} {
+	vC18KeyOnce.Do(func() {
+		ctx := WithContext(context.Background())
+		rv := reflect.ValueOf(ctx)
+		if rv.Kind() == reflect.Ptr && rv.Elem().Kind() == reflect.Struct {
+			if f := rv.Elem().FieldByName("key"); f.IsValid() && f.CanAddr() {
+				vC18KeyVal = reflect.NewAt(f.Type(), unsafe.Pointer(f.UnsafeAddr())).Elem().Interface()
+			}
+		}
+		if id, ok := ctx.Value(vC18KeyVal).(int); ok {
+			vC18NewID(id)
+		}
+	})
+	return vC18KeyVal
+}
+
 func vC18Cid(c context.Context) (int, bool) {
-	v, ok := c.Value(cidKey).(int)
+	v, ok := c.Value(vC18Key()).(int)
 	return v, ok
 }
 
@@ -761,7 +784,7 @@ func vC18CtxOf(kind, ref int) (Context, int, int, bool) {
 		return &vC18Obj{cid: ref}, 1, ref, true
 	case 2:
 		if ref >= 0 {
-			return context.WithValue(context.Background(), cidKey, ref), 2, ref, true
+			return context.WithValue(context.Background(), vC18Key(), ref), 2, ref, true
 		}
 		return context.Background(), 2, 0, false
 	}
@@ -1152,7 +1175,7 @@ func vC18Manage(c vSx) (vSx, vSx, []vC18Fail, bool) {
 				cid, hasCid = ref, true
 			case 2:
 				if ref >= 0 {
-					ctx = context.WithValue(context.Background(), cidKey, ref)
+					ctx = context.WithValue(context.Background(), vC18Key(), ref)
 					cid, hasCid = ref, true
 				} else {
 					ctx = context.Background()
